@@ -180,3 +180,18 @@ impl StdSer for (u32, Vec<u8>) {
     #[verifier::external_body] proof fn ser_props(&self) {}
     #[verifier::external_body] proof fn de_props(b: Seq<u8>) {}
 }
+
+// novasmt::Database (A-SMT): a content-addressed store; `get_tree(root)` returns the tree with that root if the store holds it
+pub mod novasmt_db {
+    use super::*;
+    #[verifier::external_body] #[verifier::accept_recursive_types(C)]
+    pub struct Database<C: ContentAddrStore> { _c: core::marker::PhantomData<C> }
+    pub uninterp spec fn db_has<C: ContentAddrStore>(db: Database<C>, root: [u8; 32]) -> bool;
+    impl<C: ContentAddrStore> Database<C> {
+        #[verifier::external_body]
+        pub fn get_tree(&self, root: [u8; 32]) -> (r: Option<novasmt::Tree<C>>)
+            ensures db_has(*self, root) ==> r is Some, r is Some ==> novasmt::root_of(r->Some_0@) == root
+        { unimplemented!() }
+    }
+}
+pub use novasmt_db::Database;
